@@ -53,8 +53,10 @@ PARTIAL = [
     "(double precision for csv/tab/tex/vot/xml/db, single for fits)",
 ]
 
-TABLE_EXTS = ['csv', 'tab', 'tex', 'vot', 'xml', 'fits']
-ALL_EXTS = TABLE_EXTS + ['db']
+TABLE_EXTS = ['csv', 'tab', 'tex', 'vot', 'xml', 'fits', 'vo']
+DB_EXTS = ('db', 'sqlite')
+ALL_EXTS = ['csv', 'tab', 'tex', 'vot', 'xml', 'fits', 'db']
+RARE_EXTS = ['vo', 'sqlite']
 SUFFIX = {'C': '_comp', 'I': '_isle', 'S': '_simp'}
 KIND = {'C': 'comp', 'I': 'isle', 'S': 'simp'}
 DBTABLE = {'C': 'components', 'I': 'islands', 'S': 'simples'}
@@ -63,6 +65,9 @@ STR_FIELDS = {'ra_str', 'dec_str', 'uuid'}
 
 
 def classes():
+    import logging
+    logging.getLogger('Aegean').setLevel(logging.CRITICAL)
+    logging.getLogger('Aegean').addHandler(logging.NullHandler())
     from AegeanTools.models import ComponentSource, IslandSource, SimpleSource
     return {'C': ComponentSource, 'I': IslandSource, 'S': SimpleSource}
 
@@ -366,14 +371,14 @@ def real_roundtrip(ctx, case, root):
     by_letter = {L: [k for k, (l, _) in enumerate(cat_spec) if l == L] for L in 'CIS'}
     if ext in ('ann', 'reg'):
         return check_annotations(case, obs, by_letter, root_, ext_, present, fails)
-    if ext == 'db':
+    if ext in DB_EXTS:
         want = [os.path.basename(fn)]
     else:
         want = sorted(os.path.basename(root_ + SUFFIX[L] + ext_) for L in 'CIS' if by_letter[L])
     if present != want:
         fails.append(('files', f"files written {present}, the property requires {want}", {}))
         return obs
-    if ext == 'db':
+    if ext in DB_EXTS:
         con = sqlite3.connect(fn)
         tables = [r[0] for r in con.execute("select name from sqlite_master where type='table' order by rowid")]
         obs['db_tables'] = tables
@@ -388,7 +393,7 @@ def real_roundtrip(ctx, case, root):
         try:
             with warnings.catch_warnings():
                 warnings.simplefilter('ignore')
-                if ext == 'db':
+                if ext in DB_EXTS:
                     info = con.execute(f"PRAGMA table_info({DBTABLE[L]})").fetchall()
                     cols = [r[1] for r in info]
                     rows = con.execute(f"select * from {DBTABLE[L]} order by rowid").fetchall()
@@ -444,7 +449,7 @@ def real_roundtrip(ctx, case, root):
                     if not ok:
                         bad = ('int-field', n, f"{x!r} -> {y!r}", dict(column=n))
                 else:
-                    if ext == 'db' and y is None and is_nan(x):
+                    if ext in DB_EXTS and y is None and is_nan(x):
                         continue                                # NULL is sqlite's NaN (ASSUMPTIONS)
                     why = num_equal(x, y, single)
                     if why:
@@ -458,7 +463,7 @@ def real_roundtrip(ctx, case, root):
                 fails.append((what, f"{KIND[L]} row {pos} (catalogue index {k}) attribute {n}: {why}",
                               dict(extra, kind=KIND[L], row=pos, attr=n)))
                 break
-    if ext == 'db':
+    if ext in DB_EXTS:
         con.close()
     return obs
 
@@ -490,7 +495,7 @@ def model_lines(case, fn):
     lines = [f"plan {hexs(fn)}", f"splitext {hexs(fn)}"]
     if ext in ('ann', 'reg'):
         return lines
-    writer = 'db' if ext == 'db' else ('fits' if ext == 'fits' else 'table')
+    writer = 'db' if ext in DB_EXTS else ('fits' if ext == 'fits' else 'table')
     pre = '~' if case['prefix'] is None else hexs(case['prefix'])
     cl = classes()
     toks = []
@@ -517,7 +522,7 @@ def compare_model(ctx, case, obs, outs):
     if len(plan) == 5:
         m_ext, m_writer = unhex(plan[0]), plan[1]
         m_names = {L: unhex(plan[2 + i]) for i, L in enumerate('CIS')}
-        want_writer = {'db': 'db', 'ann': 'ann:' + hexs('ann'), 'reg': 'ann:' + hexs('reg'), 'tex': 'table:' + hexs('latex')}
+        want_writer = {'db': 'db', 'sqlite': 'db', 'ann': 'ann:' + hexs('ann'), 'reg': 'ann:' + hexs('reg'), 'tex': 'table:' + hexs('latex')}
         ww = want_writer.get(ext, 'table:' + hexs(ext if ext in TABLE_EXTS else 'tab'))
         if m_writer != ww or m_ext != os.path.splitext(fn)[1][1:].lower():
             corr.append(('dispatch', f"model dispatches {m_ext!r} to {m_writer}, expected {ww}"))
@@ -539,7 +544,7 @@ def compare_model(ctx, case, obs, outs):
                            cols=[] if cols == '-' else [(unhex(c.split(':')[0]), c.split(':')[1]) for c in cols.split(',')],
                            strs={} if strs == '-' else {unhex(s.split('=')[0]): [unhex(x) for x in s.split('=')[1].split('|')]
                                                       for s in strs.split(';')}))
-    if ext == 'db':
+    if ext in DB_EXTS:
         got_tables = [t for t in obs.get('db_tables', []) if t != 'meta']
         if got_tables != [m['name'] for m in mfiles]:
             corr.append(('db-tables', f"sqlite tables {got_tables}, model {[m['name'] for m in mfiles]}"))
@@ -562,7 +567,7 @@ def compare_model(ctx, case, obs, outs):
             corr.append(('partition', f"{m['kind']}: rows in file (by uuid) differ from the model's partition/order"))
         if o['colnames'] != [c for c, _ in m['cols']]:
             corr.append(('columns', f"{m['kind']}: columns {o['colnames'][:6]}.., model {[c for c, _ in m['cols']][:6]}.."))
-        if ext == 'db' and o.get('types') != [t for _, t in m['cols']]:
+        if ext in DB_EXTS and o.get('types') != [t for _, t in m['cols']]:
             corr.append(('db-types', f"{m['kind']}: declared types {o.get('types')}, model {[t for _, t in m['cols']]}"))
         if ext == 'fits':
             if o.get('tform') != [t for _, t in m['cols']]:
@@ -651,6 +656,13 @@ def run_cases(ctx, cases, do_shrink=True):
     outs = ctx.driver.batch(lines) if (ctx.driver_ok and lines) else []
     for case, obs, start, n in work:
         for what, detail, extra in obs['fails']:
+            dupkey = json.dumps(signature(case, what, extra), sort_keys=True)
+            seen = ctx.extra.setdefault('failure_kinds_seen', {})
+            if dupkey in seen:                      # same kind of failure already has a (minimised) witness
+                seen[dupkey] += 1
+                ctx.count('repeat-of-reported-failure')
+                continue
+            seen[dupkey] = 1
             small = case
             if do_shrink and len(case['catalog']) > 3:
                 small = shrink(ctx, case, what, root)
@@ -763,6 +775,8 @@ def random_cases(ctx, n_cats, max_rows, exts):
             cases.append(make_case(rng, cat, rng.choice(['ann', 'reg']), stem=rng.choice(FILE_STEMS[:3])))
         if rng.random() < 0.1:
             cases.append(make_case(rng, cat, rng.choice(['bla', '']), stem='odd', subdir='d.ir'))
+        if rng.random() < 0.2:
+            cases.append(make_case(rng, cat, rng.choice(RARE_EXTS), stem='rare', prefix=rng.choice([None, 'p'])))
     return cases
 
 
@@ -805,11 +819,11 @@ def run(ctx):
     if ctx.quick:
         run_cases(ctx, random_cases(ctx, 26, 300, ALL_EXTS))
     else:
-        run_cases(ctx, random_cases(ctx, 150, 400, ALL_EXTS))
+        run_cases(ctx, random_cases(ctx, 240, 600, ALL_EXTS))
         # a few big catalogues, every format
         big = []
-        for nrows in (1000, 3000):
-            cat = gen_catalogue(ctx.rng, nrows, 'CCIS', dict(atypical=True, nan=0.05, f32cols=('background',)))
+        for nrows, mix in ((1000, 'CCIS'), (2000, 'C'), (3000, 'CCIS')):
+            cat = gen_catalogue(ctx.rng, nrows, mix, dict(atypical=True, nan=0.05, f32cols=('background',)))
             for ext in ALL_EXTS:
                 big.append(make_case(ctx.rng, cat, ext, prefix=ctx.rng.choice([None, 'big'])))
         run_cases(ctx, big)
